@@ -151,6 +151,16 @@ func c14GroupCheck(grouped bool, order []int) (out [][2]string) {
 	}
 	system.VerifSetAddresser(c14GroupAddresser{})
 	defer system.VerifSetAddresser(nil)
+	// An earlier incarnation of every interface (same name, another index - the device
+	// was deleted and re-created): each was prepared for it once; the preparation below,
+	// for the current device, is the one that counts.
+	for i := range cfg.Interfaces {
+		for _, p := range cfg.Interfaces[i].Plugins {
+			if err := p.Prepare(&net.Interface{Index: 9, Name: names[i]}); err != nil {
+				return [][2]string{{"C14:group:prepare", err.Error()}}
+			}
+		}
+	}
 	for _, i := range order {
 		for _, p := range cfg.Interfaces[i].Plugins {
 			if err := p.Prepare(&net.Interface{Index: i + 1, Name: names[i]}); err != nil {
